@@ -127,7 +127,38 @@ type callEvent struct {
 	PC   *Term
 }
 
+// ghostGoverned: v is an opaque interface value under the interface call rule
+// (user Memory / IO / handlers) and t a concrete type of the module.
+func (x *Exec) ghostGoverned(v *IfaceV, t types.Type) bool {
+	if x.gobj == nil || v.Opaque == "" || v.Dyn != nil || v.AltC != nil {
+		return false
+	}
+	if _, isIface := t.Underlying().(*types.Interface); isIface {
+		return false
+	}
+	var n *types.Named
+	switch u := t.(type) {
+	case *types.Named:
+		n = u
+	case *types.Pointer:
+		n, _ = u.Elem().(*types.Named)
+	}
+	if n == nil || n.Obj().Pkg() == nil || !strings.HasPrefix(n.Obj().Pkg().Path(), modPath) {
+		return false
+	}
+	it, ok := v.T.Underlying().(*types.Interface)
+	return ok && types.Implements(t, it)
+}
+
 func (x *Exec) callFn(callee *ssa.Function, bind []Value, args []Value, st *State, pc *Term) Value {
+	if len(args) > 0 && callee.Signature.Recv() != nil {
+		if gr, ok := args[0].(*GhostRecvV); ok {
+			if m, ok := callee.Object().(*types.Func); ok {
+				x.oblige("nil-iface-call", pc, x.b.Not(x.ifaceNil(gr.Iface)))
+				return x.invoke(gr.Iface, m, args[1:], st, pc)
+			}
+		}
+	}
 	if x.inInit && callee.Name() == "init" && callee.Pkg != nil && len(args) == 0 && !x.initGuard {
 		// the initialiser of an imported package.  If it lies outside the
 		// verifier's subset its variables are arbitrary from here on and every
@@ -139,7 +170,7 @@ func (x *Exec) callFn(callee *ssa.Function, bind []Value, args []Value, st *Stat
 		func() {
 			defer func() {
 				if r := recover(); r != nil {
-					if u, ok := r.(Unsupported); ok {
+					if u, ok := asUnsupported(r); ok {
 						failed = u.Msg
 						return
 					}
